@@ -89,6 +89,7 @@ func (H) Gen(prop string, rng *rand.Rand, tier string) *core.Plan {
 		}
 		p.Ops = append(p.Ops, core.Op{K: "end", S: []string{"sync", "flush", "reopen", "reopen", "crash", "crash"}[rng.Intn(6)]})
 	}
+	p.Cfg["maporder"] = rng.Intn(2) // tape-chosen iteration order of Go maps in the code under test
 	return p
 }
 
